@@ -15,7 +15,8 @@ class MSSQLQuery(Query):
     Defines a query class for use with Microsoft SQL Server.
     """
 
-    SQL_CONTEXT = DEFAULT_SQL_CONTEXT.copy(dialect=Dialects.MSSQL)
+    # MSSQL does not support group by a field alias
+    SQL_CONTEXT = DEFAULT_SQL_CONTEXT.copy(dialect=Dialects.MSSQL, groupby_alias=False)
 
     @classmethod
     def _builder(cls, **kwargs: Any) -> "MSSQLQueryBuilder":
